@@ -4,6 +4,8 @@ package sched
 
 import (
 	"fmt"
+	"os"
+	"os/exec"
 	"strings"
 	"testing"
 
@@ -100,7 +102,7 @@ func driveC08(p *Pool, r *evid.Run) {
 	}
 	// 400 files at bound 0 around every policy: every internal queue fills up
 	var big []Scn
-	for _, pol := range []string{"run", "rund", "rr", "recv", "send", "starve"} {
+	for _, pol := range []string{"run", "recv", "starve"} {
 		for _, cp := range []int{1, 64} {
 			big = append(big, Scn{Kind: "xfer", Src: "fan400", Dst: "empty", Cap: cp, Policy: pol, Notify: true})
 		}
@@ -108,6 +110,41 @@ func driveC08(p *Pool, r *evid.Run) {
 	exploreAll(p, r, "C08", big, 0, 0)
 	bounds["fan400"] = 0
 	r.Set("completed_bound", bounds)
+	auxRacePass(r)
 }
 
 func drvPastDeadline() bool { return !drv.deadline.IsZero() && timeNow().After(drv.deadline) }
+
+// auxRacePass runs the auxiliary free-running pass under the race detector. It is
+// sampling and is reported as such (aux_race_runs); a reported race is a violation of
+// the property's third clause, its absence is not a proof.
+func auxRacePass(r *evid.Run) {
+	bin := os.Getenv("VERIF_RACEPASS")
+	if bin == "" {
+		r.Set("aux_race_runs", 0)
+		return
+	}
+	n := 300
+	if r.Tier == "thorough" {
+		n = 6000
+	}
+	cmd := exec.Command(bin, fmt.Sprint(n))
+	cmd.Env = append(os.Environ(), "GORACE=halt_on_error=1 exitcode=66")
+	out, err := cmd.CombinedOutput()
+	s := string(out)
+	if strings.Contains(s, "DATA RACE") {
+		i := strings.Index(s, "WARNING: DATA RACE")
+		rep := s[i:]
+		if len(rep) > 1800 {
+			rep = rep[:1800]
+		}
+		r.Violate("data-race", "the race detector reports a data race in a free-running transfer (auxiliary pass):\n"+rep, map[string]any{"report": rep})
+		r.Set("aux_race_runs", n)
+		return
+	}
+	if err != nil {
+		drv.infra = append(drv.infra, "race pass: "+err.Error()+": "+firstLines(s, 3))
+		return
+	}
+	r.Set("aux_race_runs", n)
+}
